@@ -446,7 +446,8 @@ pub fn run_check(engine: &dyn Engine, spec: &CheckSpec) -> i32 {
     );
     for (id, n) in &known_hits {
         if let Some(f) = known.iter().find(|f| &f.id == id) {
-            println!("KNOWN-FINDING: property={} {} {} (hit {}x)", f.property, f.id, f.what, n);
+            let prop = if f.property == "*" { spec.property.as_str() } else { f.property.as_str() };
+            println!("KNOWN-FINDING: property={} {} {} (hit {}x)", prop, f.id, f.what, n);
         }
     }
     if !harness_errors.is_empty() {
